@@ -10,7 +10,7 @@
   session that is not relaying pre-batched proxy traffic. Tag lists are compared modulo `core`
   (tags are re-stamped / merged per transmission and are not among the fields the property names).
 -/
-import XMT.BatchNext
+import XMT.BatchDrain
 namespace XMT.Props.C03
 open XMT XMT.Packet XMT.Batch
 
@@ -44,6 +44,28 @@ theorem transmission_lossless (P F : Nat) (hP : P < Facts.fragMax) (i : Bytes) (
         (keepF (obs ++ (nextPacket P F q n i t).2.1.toList ++ (nextPacket P F q n i t).2.2)).map core
           = (keepF (n.toList ++ q)).map core :=
   nextPacket_spec P F hP i t n q hq hne X
+
+/-- **`Session.next`, one call**, including the carried-over packet (`peek`) and the
+"sent on its own" shortcuts: see `next_spec`. -/
+theorem session_next_lossless (P F : Nat) (hP : P < Facts.fragMax) (hP2 : 2 ≤ P) (i : Bytes) (st : St)
+    (hlast : st.last = 0) (hq : ∀ a ∈ content st, QWF a) (o : Pkt) (ho : (next P F st i).1 = some o) :
+    ∃ obs, unpack 3 o = .ok obs ∧
+      (keepF (obs ++ content (next P F st i).2)).map core = (keepF (content st)).map core ∧
+      (content (next P F st i).2).length < (content st).length :=
+  let ⟨obs, h1, h2, _, h4, _⟩ := (next_spec P F hP hP2 i st hlast hq).2 o ho
+  ⟨obs, h1, h2, h4⟩
+
+/-- **All successive transmissions until the queue drains**: for every queue content (any number
+of packets, any sizes, own or foreign devices, keep-alives in any position, with or without tags,
+with or without a carried-over packet) and every budget, the sequence of packets the peer's
+handlers observe is — keep-alives and tag lists aside — exactly the queued sequence, each once, in
+order, with ID, job, device, flags and payload intact; the number of transmissions needed is at
+most the number of queued packets. -/
+theorem drain_lossless (P F : Nat) (hP : P < Facts.fragMax) (hP2 : 2 ≤ P) (i : Bytes) (st : St)
+    (hlast : st.last = 0) (hq : ∀ a ∈ content st, QWF a) :
+    ∃ obs, observe (drain P F i ((content st).length + 1) st) = .ok obs ∧
+      (keepF obs).map core = (keepF (content st)).map core :=
+  drain_spec P F hP hP2 i _ st (Nat.lt_succ_self _) hlast hq
 
 /-! Non-vacuity: two keep-alives only (the repaired case) and a mixed queue. -/
 def dev : Bytes := 3 :: List.replicate 31 0
